@@ -2,16 +2,16 @@ CONSTANTS
   w1 = w1
   w2 = w2
   Wakers = {w1, w2}
-  Target <- TgtMT
+  Target <- TgtTT
   Tasks = {"t1"}
   QCap = 1
   Mode = "block_on"
-  Driver = "poll"
+  Driver = "iour"
   Eager = TRUE
   ArmInFlush = FALSE
   WakeAfterPush = TRUE
-  Overflow = FALSE
+  Overflow = TRUE
   MaxLen = 80
-  LateRounds = 1
+  LateRounds = 0
 SPECIFICATION GSpec
 INVARIANTS EmitInv
